@@ -66,3 +66,13 @@ package filesystem
 //@   ensures evHas(evt, fsnotify.Create) || evHas(evt, fsnotify.Write) || evHas(evt, fsnotify.Chmod) ==> cou.n == old(cou.n) + 1 && cou.arg1[old(cou.n)] == evt.Name && ret0 == cou.ret0[old(cou.n)]
 //@   ensures !(evHas(evt, fsnotify.Create) || evHas(evt, fsnotify.Write) || evHas(evt, fsnotify.Chmod)) && evHas(evt, fsnotify.Remove) ==> rsd.n == old(rsd.n) + 1 && rsd.arg1[old(rsd.n)] == evt.Name && ret0 == rsd.ret0[old(rsd.n)] && cou.n == old(cou.n)
 //@   ensures !(evHas(evt, fsnotify.Create) || evHas(evt, fsnotify.Write) || evHas(evt, fsnotify.Chmod)) && !evHas(evt, fsnotify.Remove) ==> rsd.n == old(rsd.n) && cou.n == old(cou.n) && ret0 == nil
+
+// C07 "No interleaving of requests and changes produces a data race ... none is lost or half
+// overwritten": ruleSetCreatedOrUpdated looks a file's hash up and acts on it afterwards (the
+// sync.Map protects the single accesses only), which is safe as long as one control flow handles a
+// file at a time - the initial rule sets are loaded before the watcher goroutine exists
+// (ghost counter gostart = go statements executed so far).
+//@ func (*Provider).Start
+//@   props C07
+//@   writeframe
+//@   assert at call loadInitialRuleSet#1: gostart.n == old(gostart.n)
